@@ -230,6 +230,9 @@ class C15(Engine):
         rejected = []
         abort = False
         outside = False
+        if not isinstance(M.lookup(norm_rel(".", cwd)), dict):
+            # the cwd does not exist in this tree (a minimisation candidate deleted it): not a valid scenario
+            return {"selected": [], "rejected": [], "abort": False, "outside": True, "gitignore": False}
         if not args:
             sel += M.files_under(norm_rel(".", cwd))
         for a in args:
